@@ -24,8 +24,11 @@ def run(tier, seed):
     c = {"OptSet": "small" if quick else "full"}
     rep.add_mc("MC_FimADM clauses on the constructive definition", vc.run_tlc_cfg("MC_FimADM", MC, c, workers=16), c)
     scripts = vc.gen_scripts(rep, "Gen_FimADM", "MC_FimADM", GEN, c, max_obs=10, timeout=3400)
+    # the aggregate-model object is partitioned once BEFORE it grows (it must not remember the earlier node list)
+    scripts = [[y for o in sc for y in (([{"op": "Partition"}] if o["op"] == "Grow" else []) + [o])] for sc in scripts]
     vc.run_and_validate(rep, "adm", "harness.adm_adapter.run_script", "Trace_FimADM", scripts, [{}],
-                        "every annotated aggregate model of the bound: partition, clause by clause, and re-keying",
+                        "every annotated aggregate model of the bound: partition, clause by clause, re-keying (once, twice, to the same key), "
+                        "and partition again after the model has grown",
                         batch_lines=2500)
     # code -> spec: the repository's own advertisement models (realistic size), every clause evaluated by TLC
     import glob
